@@ -1,8 +1,8 @@
 """C10 - Cloud-provider assign/unassign calls are well ordered per IP."""
 import plugincheck
 
-THEOREMS = []
-REFUTED = []
+THEOREMS = ["cloud_wellformed", "freed_before_reuse", "cloud_invariant_preserved"]
+REFUTED = ["cloud_wellformed_refuted_rebind", "cloud_wellformed_refuted_multi_ip_resync"]
 KNOWN_FINDINGS = [
     {"id": "K3", "status": "open", "tag": plugincheck.K3_TAG,
      "what": "Bind calls AssignIP(ip, node) although the provider still has the ip assigned to another node: after a failed "
@@ -16,9 +16,35 @@ KNOWN_FINDINGS = [
              "cloud_wellformed_refuted_multi_ip_resync, scenarios incarnation:*:multi:cloud"},
 ]
 
+MANIFEST = {
+    "text": "Coq invariant proof over ALL well-formed histories of the scheduler-plugin model with a cloud provider (sections "
+            "filter / bind / pod event / resync item / API release / pod-IP sync / reload / restart in any order, arbitrary "
+            "informer lag, every provider call failing cleanly at any index, every map-iteration oracle): cloud_wellformed - the "
+            "provider's log replays without ever assigning an IP that is On another node (log_wf), every IP of a bound live pod "
+            "is On that pod's node (cloud_live), an IP is On a node only while allocated with that node stored (cloud_alloc); "
+            "freed_before_reuse - every step that frees an IP or hands it to another owner leaves it Unassigned; "
+            "cloud_invariant_preserved (the induction step). The two state conditions of the history predicate wf_c10 (k3_free, "
+            "k3b_free) are exactly the two recorded defects K3 / K3b, each with a proved refuting history "
+            "(cloud_wellformed_refuted_rebind, cloud_wellformed_refuted_multi_ip_resync) reproduced on the real code. Tied to the "
+            "code by replaying scenario + random histories on the real FloatingIPPlugin with a recording provider vs the model "
+            "step by step, and by evaluating log_ok / mon_cloud_live / mon_freed_unassigned on the implementation's own provider "
+            "log and dumps after every step.",
+    "note": "trusted: Coq kernel (no axioms); harness fakes (API server, listers, recording provider); section atomicity (one "
+            "history item = one region under the pod lock); store-call failures inside Bind after a successful AssignIP are outside "
+            "the property's fault quantifier (provider calls) and excluded (f_update = None); histories are those of wf_op "
+            "(Proofs/PluginInv.v)",
+}
+
 
 def run(ctx):
-    ctx.cov["rule"] = "wip"
+    ctx.cov["rule"] = ("well-formed histories of plugin sections and environment operations with a cloud provider: 5 regression "
+                       "scenarios (F1/F2/F13), 'old versus new incarnation' races (kind x policy x ranges none/same/changed/multi x "
+                       "how the old pod ended x random interleavings of its event / resync items / API release / pod-IP sync with "
+                       "create / filter / bind / run of the new pod, followed by late events, resync, reload, restart), and random "
+                       "histories (provider-call faults at random indices); each history runs on the REAL FloatingIPPlugin and on "
+                       "Model/Plugin.v (result, returned IPs / nodes, allocation tables, store, pods, event queue, provider state "
+                       "compared after every step); the predicates of the theorems (log replay, cloud_live, freed_unassigned) are "
+                       "evaluated on the implementation's provider log and dumps after every step of the well-formed prefix")
     plugincheck.run(ctx, "C10", THEOREMS, REFUTED, plugincheck.mon_c10, gen_kw={"provider": True})
 
 
